@@ -491,6 +491,44 @@ func dumpMsg(b *strings.Builder, m protoreflect.Message, path string) {
 	}
 }
 
+// MapStrings rewrites every string value of m (fields, list elements, map values) through f.
+func MapStrings(m protoreflect.Message, path string, f func(path, s string) string) {
+	m.Range(func(fd protoreflect.FieldDescriptor, v protoreflect.Value) bool {
+		p := path + "." + string(fd.Name())
+		switch {
+		case fd.IsMap():
+			mp := v.Map()
+			type kv struct {
+				k protoreflect.MapKey
+				v protoreflect.Value
+			}
+			var kvs []kv
+			mp.Range(func(k protoreflect.MapKey, mv protoreflect.Value) bool { kvs = append(kvs, kv{k, mv}); return true })
+			for _, e := range kvs {
+				if fd.MapValue().Kind() == protoreflect.StringKind {
+					mp.Set(e.k, protoreflect.ValueOfString(f(p, e.v.String())))
+				} else if fd.MapValue().Kind() == protoreflect.MessageKind {
+					MapStrings(e.v.Message(), p, f)
+				}
+			}
+		case fd.IsList():
+			l := v.List()
+			for i := 0; i < l.Len(); i++ {
+				if fd.Kind() == protoreflect.StringKind {
+					l.Set(i, protoreflect.ValueOfString(f(p, l.Get(i).String())))
+				} else if fd.Kind() == protoreflect.MessageKind {
+					MapStrings(l.Get(i).Message(), p, f)
+				}
+			}
+		case fd.Kind() == protoreflect.StringKind:
+			m.Set(fd, protoreflect.ValueOfString(f(p, v.String())))
+		case fd.Kind() == protoreflect.MessageKind:
+			MapStrings(v.Message(), p, f)
+		}
+		return true
+	})
+}
+
 // Hash64 is FNV-1a over s.
 func Hash64(s string) uint64 {
 	h := uint64(14695981039346656037)
